@@ -730,6 +730,10 @@ class Watcher(object):
             graceful_timeout = self.graceful_timeout
 
         if process.stopping:
+            # somebody else is already killing it: wait for that to finish,
+            # callers reap the process as soon as we return
+            while process.stopping:
+                yield tornado_sleep(0.1)
             raise gen.Return(False)
         try:
             logger.debug("%s: kill process %s", self.name, process.pid)
